@@ -1,72 +1,57 @@
 package main
 
 import (
-	"go/ast"
+	"go/token"
 	"go/types"
 	"sort"
 
 	"golang.org/x/tools/go/ssa"
 )
 
-// The operator registry is filled from the repository itself: every keyed
-// element of a composite literal of type Dict whose value is a conversion to
-// type `builtin`.
+// The operator registry is filled from the repository itself.
 
 type regEntry struct {
 	table string // "systemdict" | "cidInit"
 	key   string
 	fn    *ssa.Function // nil for data entries
-	expr  ast.Expr
-	typ   types.Type // static type of the value expression
+	typ   types.Type    // type of the value bound to the key (before it is boxed)
+	val   ssa.Value     // the value bound to the key (unboxed)
+	pos   token.Pos     // where the key is bound
+	at    ssa.Instruction
+	binds []ssa.Value // fn is a closure made by a factory: the values of its free variables for this key (nil: unknown)
+	fresh bool        // the value expression is evaluated for this key alone
 }
 
 type registry struct {
 	entries []regEntry
 	byKey   map[string]*regEntry // table/key
 	byFn    map[*ssa.Function]*regEntry
+	open    map[string]int // table → number of updates whose key or extent could not be resolved
 }
 
+// The registry is the set of bindings the dictionaries hold when the code that builds them is done
+// (ext_x5.go: builtMap): the map makeSystemDict returns, and the map the package initialiser stores
+// in the package-level CIDInit table.  An entry is an operator when its value is of type `builtin`
+// and stands for a function of the module (named, literal, closure, or closure from a factory).
 func (c *Ctx) registry() *registry {
 	if c.reg != nil {
 		return c.reg
 	}
-	r := &registry{byKey: map[string]*regEntry{}, byFn: map[*ssa.Function]*regEntry{}}
-	p := c.pkg("postscript")
-	info := p.TypesInfo
-	dictT := c.typeObj("postscript", "Dict")
+	r := &registry{byKey: map[string]*regEntry{}, byFn: map[*ssa.Function]*regEntry{}, open: map[string]int{}}
 	builtinT := c.typeObj("postscript", "builtin")
 
-	anonByPos := map[ast.Node]*ssa.Function{}
-	for _, fn := range c.modFuncs {
-		if fn.Parent() != nil && fn.Syntax() != nil {
-			anonByPos[fn.Syntax()] = fn
-		}
-	}
-
-	collect := func(table string, lit *ast.CompositeLit) {
-		for _, el := range lit.Elts {
-			kv, ok := el.(*ast.KeyValueExpr)
-			if !ok {
-				continue
-			}
-			key, ok := constStrOf(info, kv.Key)
-			if !ok {
-				continue
-			}
-			e := regEntry{table: table, key: key, expr: kv.Value, typ: info.TypeOf(kv.Value)}
-			if call, ok := unparen(kv.Value).(*ast.CallExpr); ok && len(call.Args) == 1 {
-				if tv, ok := info.Types[call.Fun]; ok && tv.IsType() {
-					if n, ok := tv.Type.(*types.Named); ok && n.Obj() == builtinT {
-						switch a := unparen(call.Args[0]).(type) {
-						case *ast.Ident:
-							if f, ok := info.ObjectOf(a).(*types.Func); ok {
-								e.fn = c.prog.FuncValue(f)
-							}
-						case *ast.FuncLit:
-							e.fn = anonByPos[a]
-							if e.fn != nil {
-								anonNames[e.fn] = "postscript." + table + "$" + key
-							}
+	collect := func(table string, mc *mapContents) {
+		r.open[table] = len(mc.open)
+		for _, k := range mc.order {
+			b := mc.by[k]
+			e := regEntry{table: table, key: k, val: b.val, pos: b.pos, at: b.at, fresh: b.fresh}
+			if b.val != nil {
+				e.typ = b.val.Type()
+				if typeIsNamed(e.typ, builtinT) {
+					e.fn, e.binds = c.operatorOf(b.val)
+					if e.fn != nil && e.fn.Parent() != nil {
+						if _, named := anonNames[e.fn]; !named {
+							anonNames[e.fn] = "postscript." + table + "$" + k
 						}
 					}
 				}
@@ -75,59 +60,25 @@ func (c *Ctx) registry() *registry {
 		}
 	}
 
-	// systemdict: the Dict literal in makeSystemDict with the most entries
-	fd := c.funcDecl("postscript", "", "makeSystemDict")
-	var best *ast.CompositeLit
-	ast.Inspect(fd.Body, func(n ast.Node) bool {
-		if cl, ok := n.(*ast.CompositeLit); ok {
-			if nt, ok := info.TypeOf(cl).(*types.Named); ok && nt.Obj() == dictT {
-				if best == nil || len(cl.Elts) > len(best.Elts) {
-					best = cl
-				}
-			}
+	// systemdict: the map makeSystemDict returns
+	mk := c.fn("postscript", "makeSystemDict")
+	var root ssa.Value
+	nret := 0
+	eachInstr(mk, func(ins ssa.Instruction) {
+		if ret, ok := ins.(*ssa.Return); ok && len(ret.Results) == 1 {
+			nret++
+			root = origin(ret.Results[0])
 		}
-		return true
 	})
-	if best == nil {
-		abort("anchor: system dictionary literal not found in makeSystemDict")
+	if nret != 1 || root == nil {
+		abort("anchor: the dictionary returned by makeSystemDict was not found (%d return statements)", nret)
 	}
-	collect("systemdict", best)
-	// later additions of the form systemDict["key"] = builtin(...)
-	ast.Inspect(fd.Body, func(n ast.Node) bool {
-		as, ok := n.(*ast.AssignStmt)
-		if !ok || len(as.Lhs) != 1 || len(as.Rhs) != 1 {
-			return true
-		}
-		ix, ok := as.Lhs[0].(*ast.IndexExpr)
-		if !ok {
-			return true
-		}
-		if key, ok := constStrOf(info, ix.Index); ok {
-			r.entries = append(r.entries, regEntry{table: "systemdict", key: key, expr: as.Rhs[0], typ: info.TypeOf(as.Rhs[0])})
-		}
-		return true
-	})
+	collect("systemdict", c.builtMap(mk, root, 2))
 
-	// cidInit: initialiser of the package-level variable
-	for _, f := range p.Syntax {
-		for _, d := range f.Decls {
-			gd, ok := d.(*ast.GenDecl)
-			if !ok {
-				continue
-			}
-			for _, sp := range gd.Specs {
-				vs, ok := sp.(*ast.ValueSpec)
-				if !ok {
-					continue
-				}
-				for i, n := range vs.Names {
-					if n.Name == c.curVal("postscript", "cidInit") && i < len(vs.Values) {
-						if cl, ok := vs.Values[i].(*ast.CompositeLit); ok {
-							collect("cidInit", cl)
-						}
-					}
-				}
-			}
+	// cidInit: contents of the package-level table
+	if g, ok := c.spkg("postscript").Members[c.curVal("postscript", "cidInit")].(*ssa.Global); ok {
+		if mc := c.globalMapContents(g); mc != nil {
+			collect("cidInit", mc)
 		}
 	}
 	sort.SliceStable(r.entries, func(i, j int) bool {
@@ -140,7 +91,9 @@ func (c *Ctx) registry() *registry {
 		e := &r.entries[i]
 		r.byKey[e.table+"/"+e.key] = e
 		if e.fn != nil {
-			r.byFn[e.fn] = e
+			if _, dup := r.byFn[e.fn]; !dup {
+				r.byFn[e.fn] = e
+			}
 		}
 	}
 	c.reg = r
